@@ -200,11 +200,7 @@ class GlsaDirSet(GenericEquality):
                     raise ValueError(
                         f"range {op} version {node.text.strip()} is a guaranteed empty set"
                     )
-                elif op == "rle":  # rle -r0 -> = -r0
-                    return atom_restricts.VersionMatch("=", base.version, negate=negate)
-                elif op == "rge":  # rge -r0 -> ~
-                    return atom_restricts.VersionMatch("~", base.version, negate=negate)
-            # rgt -r0 passes through to regular ~ + >
+            # the other -r0 forms pass through to regular ~ + op
             restrictions.append(atom_restricts.VersionMatch("~", base.version))
         restrictions.append(
             atom_restricts.VersionMatch(restrict, base.version, rev=base.revision),
